@@ -119,7 +119,7 @@ const noPalomad = -99
 
 func (e *env) newAppHist(r *rand.Rand) *appHist { return e.newAppHistWith(r, noPalomad) }
 
-func (e *env) newAppHistWith(r *rand.Rand, maxTxs int) *appHist {
+func (e *env) newAppHistWith(r *rand.Rand, maxTxs int, seqs ...uint64) *appHist {
 	h := &appHist{pend: map[sn]*appTx{}, premise: true, feats: map[string]bool{}, built: "app.New(logger, db, nil, true, appOpts)"}
 	if maxTxs == noPalomad {
 		h.app = newApp()
@@ -144,6 +144,9 @@ func (e *env) newAppHistWith(r *rand.Rand, maxTxs int) *appHist {
 	var bals []banktypes.Balance
 	for i := 0; i < nAppAcc; i++ {
 		seq := uint64(r.Intn(3))
+		if i < len(seqs) {
+			seq = seqs[i]
+		}
 		h.next = append(h.next, seq)
 		h.initSeqs = append(h.initSeqs, emit.Pair(emit.ZI(int64(i)), emit.ZU(seq)))
 		acc := authtypes.NewBaseAccount(e.addr(i), e.pubs[i], uint64(i), seq)
@@ -401,6 +404,21 @@ func (h *appHist) prepare(e *env) [][]byte {
 	if h.dead {
 		return nil
 	}
+	consecutive := h.allConsecutive(e)
+	// What the handler removes from the pool is what its iteration over Select YIELDS and its verification refuses. A
+	// transaction the pool holds but Select does not yield (outside the premise: a replaced transaction whose stale
+	// sender-index priority hides it, theorem select_complete_without_premise_refuted) is neither visited nor removed.
+	// So, when something may be refused: what Select yields before the proposal and no longer afterwards was removed.
+	var before map[sn]bool
+	if !consecutive {
+		before = map[sn]bool{}
+		for _, k := range h.selectObs(e, true) {
+			before[k] = true
+		}
+		if h.dead {
+			return nil
+		}
+	}
 	res, err := h.app.PrepareProposal(&abci.RequestPrepareProposal{MaxTxBytes: 10_000_000, Height: h.height + 1})
 	if err != nil {
 		h.fail(e, "PrepareProposal: "+err.Error())
@@ -408,7 +426,6 @@ func (h *appHist) prepare(e *env) [][]byte {
 	}
 	out := h.decodeKeys(e, res.Txs)
 	entry := map[string]any{"op": "prepare", "proposal": fmt.Sprint(out)}
-	consecutive := h.allConsecutive(e)
 	if h.premise && consecutive {
 		// every pending transaction continues its sender's committed sequence: nothing is skipped or removed,
 		// the proposal IS the Select order and the whole property applies to it
@@ -418,19 +435,19 @@ func (h *appHist) prepare(e *env) [][]byte {
 	e.run.Count("app-op", "prepare")
 	h.after2(e, fmt.Sprintf("C19.PPrepare %s", snTerm(out)), entry, consecutive)
 	if !consecutive {
-		// the handler removed what failed its verification: re-synchronise the bookkeeping with what Select yields now
-		// (CountTx is compared with it right after)
 		left := map[sn]bool{}
 		for _, k := range h.selectObs(e, true) {
 			left[k] = true
 		}
 		for k := range h.pend {
-			if !left[k] {
+			if before[k] && !left[k] {
 				delete(h.pend, k)
 				h.feats["prepare-removed-invalid"] = true
+			} else if !before[k] && !left[k] {
+				h.feats["pending-but-hidden-from-select (outside the premise)"] = true
 			}
 		}
-		h.countCheck(e)
+		h.countCheck(e) // CountTx against the bookkeeping, for every history
 	}
 	return res.Txs
 }
@@ -723,4 +740,65 @@ func (e *env) appWitnesses() {
 		h.feats["witness-"+script] = true
 		h.finish(e)
 	}
+}
+
+
+// corpus: {"app":{"init_seqs":[..6..],"built":-99},"ops":[["c",kind,[[acct,seq],..],"declared fee (decimal)",gas], ["rc",[acct,seq]],
+// ["s"], ["p"], ["b",[[acct,seq],..]]]} — CheckTx / re-check of the pending tx keyed (acct,seq) / Select / PrepareProposal / block of the listed pending txs + Commit
+func (e *env) replayAppCorpus(initSeqs []uint64, built int, ops [][]json.RawMessage) {
+	if built == 0 {
+		built = noPalomad
+	}
+	h := e.newAppHistWith(rand.New(rand.NewSource(19)), built, initSeqs...)
+	if h == nil {
+		return
+	}
+	keysOf := func(raw json.RawMessage) []sn {
+		var xs [][2]uint64
+		json.Unmarshal(raw, &xs)
+		var out []sn
+		for _, x := range xs {
+			out = append(out, sn{int(x[0]), x[1]})
+		}
+		return out
+	}
+	for _, o := range ops {
+		var tag string
+		json.Unmarshal(o[0], &tag)
+		switch tag {
+		case "c":
+			var kind int
+			json.Unmarshal(o[1], &kind)
+			var fg feeGas
+			if len(o) > 4 {
+				var amt string
+				json.Unmarshal(o[3], &amt)
+				if a, ok := new(big.Int).SetString(amt, 10); ok {
+					fg.amount = a
+				}
+				json.Unmarshal(o[4], &fg.gas)
+			}
+			h.check(e, kind, keysOf(o[2]), fg)
+		case "rc":
+			var x [2]uint64
+			json.Unmarshal(o[1], &x)
+			if t, ok := h.pend[sn{int(x[0]), x[1]}]; ok {
+				h.recheck(e, t)
+			}
+		case "s":
+			h.selectObs(e, false)
+		case "p":
+			h.prepare(e)
+		case "b":
+			var txs []*appTx
+			for _, k := range keysOf(o[1]) {
+				if t, ok := h.pend[k]; ok {
+					txs = append(txs, t)
+				}
+			}
+			h.block(e, txs)
+		}
+	}
+	h.feats["corpus"] = true
+	h.finish(e)
 }
